@@ -17,6 +17,8 @@ import (
 type ifaceWorld struct {
 	b    map[string]*mocker.Builder
 	init map[string][2]uintptr
+	hi   map[string]*mocker.CachedInterfaceMocker // kept b.Interface(&v) values, by builder/variable
+	hm   map[string]mocker.InterfaceMocker        // kept ....Method(m) values, by builder/variable/method
 }
 
 func (w *ifaceWorld) Name() string { return "iface" }
@@ -41,6 +43,8 @@ func (w *ifaceWorld) Begin() {
 	ifc.Restore()
 	w.b = map[string]*mocker.Builder{}
 	w.init = map[string][2]uintptr{}
+	w.hi = map[string]*mocker.CachedInterfaceMocker{}
+	w.hm = map[string]mocker.InterfaceMocker{}
 	for _, v := range []string{"i1", "i2", "j1", "k1"} {
 		_, p := w.ptr(v)
 		w.init[v] = words(p)
@@ -81,7 +85,19 @@ func (w *ifaceWorld) Do(st Step) string {
 		case "Mock":
 			ip, _ := w.ptr(st.Str("v"))
 			base := 10000 + 100*st.Int("id")
-			h := w.builder(st.Str("b")).Interface(ip).Method(st.Str("m"))
+			kI := st.Str("b") + "/" + st.Str("v")
+			kM := kI + "/" + st.Str("m")
+			var h mocker.InterfaceMocker
+			switch st.Str("via") {
+			case "heldM":
+				h = w.hm[kM]
+			case "heldI":
+				h = w.hi[kI].Method(st.Str("m"))
+			default:
+				w.hi[kI] = w.builder(st.Str("b")).Interface(ip)
+				h = w.hi[kI].Method(st.Str("m"))
+			}
+			w.hm[kM] = h
 			switch st.Str("kind") {
 			case "apply":
 				h.Apply(func(ctx *mocker.IContext, a int) int { return base + 7 })
@@ -94,6 +110,16 @@ func (w *ifaceWorld) Do(st Step) string {
 			w.builder(st.Str("b")).Reset()
 		case "Drop":
 			delete(w.b, st.Str("b"))
+			for k := range w.hi {
+				if strings.HasPrefix(k, st.Str("b")+"/") {
+					delete(w.hi, k)
+				}
+			}
+			for k := range w.hm {
+				if strings.HasPrefix(k, st.Str("b")+"/") {
+					delete(w.hm, k)
+				}
+			}
 		case "GC":
 			churn()
 		case "Call":
